@@ -36,8 +36,8 @@ Things worth knowing about the code (all modelled as they are):
   (`next_permutation` of a 0/1-element range returns false at once);
 * the positions of an order are the cells packed to the left from `minPos`;
 * `assert(order_[i].back() == cells_[cellInd])` relies on `next_permutation` handing the range back
-  sorted: ghost flag `assertFail` (never set when the registered cells are distinct:
-  `runRegionChoice_restores`).
+  sorted: ghost flag `assertFail` (never set by the enumeration when the registered cells are distinct and
+  non-negative: `run_spec`, Proofs/DetReorderChoice.lean).
 
 Ghost fields (not in the C++): `leaves` (every evaluated leaf with the value read there, most recent
 first — its length is the `verifNbLeaves_` counter of hook H3b), `fuelOut` (the `while` loop of
